@@ -15,7 +15,7 @@ ID = "C07"
 LEVEL = "exploration"
 TECHNIQUE = "Hypothesis-generated edit sequences (library edit_torrent and CLI `edit`) over own and reference-encoded metafiles, checked after every step against a dict model plus raw-span / info-hash invariance ; thorough tier adds a coverage-guided (atheris/libFuzzer) stage over the same strategy"
 RULE = ("Cases: metafile (tool-made v1/v2/hybrid with any subset of optional fields, or reference-encoded with unknown extra keys at "
-        "top level and in info) x sequence of 1..6 edit requests; each of the six fields is unnamed / set (string or list) / cleared; "
+        "top level and in info, optionally a top-level comment as other clients write it) x sequence of 1..6 edit requests; each of the six fields is unnamed / set (string or list) / cleared (library: empty string; command line: an empty argument, also for the list options); "
         "each request goes through edit_torrent or execute(['edit',...]). Oracle after every step: strict-decoded file == model "
         "(original with each named field at its last-written value, removed if cleared); raw byte spans of pieces, files, file tree, "
         "piece layers, piece length, name unchanged; SHA-1/SHA-256 of the raw info span unchanged by any step naming only trackers / "
